@@ -149,6 +149,10 @@ def check_idsets(scale):
         # binary operations on a sample of pairs
         rnd = random.Random(7)
         sample = rnd.sample(subsets, 48 * scale if 48 * scale < len(subsets) else len(subsets))
+        # the corner operands are always part of the sample: empty, full, lowest / highest singleton
+        for corner in (frozenset(), frozenset(UNIVERSE), frozenset([min(UNIVERSE)]), frozenset([max(UNIVERSE)])):
+            if not any(set(x) == set(corner) for x in sample):
+                sample.append(type(sample[0])(corner) if not isinstance(sample[0], frozenset) else corner)
         if not mutable:
             continue
         broken = False
